@@ -356,10 +356,13 @@ def cases_mog(ctx, gen, quick):
             seed = rng.randrange(2 ** 31)
             del rec[:]
             ctx_seen = []
-            hp = d._made.register_forward_pre_hook(lambda mod, args, kwargs: ctx_seen.append(kwargs.get('context', args[1] if len(args) > 1 else None)), with_kwargs=True)
+            # MixtureOfGaussiansMADE.sample calls self.forward directly (no module hooks fire on it); the context layer is called normally
+            tgt = getattr(d._made, 'context_layer', None)
+            hp = tgt.register_forward_pre_hook(lambda mod, args: ctx_seen.append(args[0])) if tgt is not None else None
             torch.manual_seed(seed)
             impl = run(lambda: d.sample(n, cs))
-            hp.remove()
+            if hp is not None:
+                hp.remove()
             passes = list(rec)
             if cs is not None and ctx_seen and ctx_seen[0] is not None:
                 # row pairing (theorem Properties.C04.repeat_rows_get): flat row k of the ancestral pass is conditioned on context row k // n
